@@ -1573,6 +1573,12 @@ fn polling_preds(a: &Analysis, v: &mut Vec<Viol>, f: &mut Feat) {
             if wi + 1 >= o.wakers.len() {
                 break;
             }
+            if o.k == K::StreamNext && wi == 0 {
+                // the stream's own waker is shared by all waits on that stream: a sender of the
+                // PREVIOUS wait may still be about to call wake() on its clone (harmless late
+                // wake); only wakers created within this wait are judged
+                continue;
+            }
             let next = o.wakers[wi + 1];
             let Some(p) = o.polls.iter().find(|p| p.waker == next) else { continue };
             if p.ready {
